@@ -25,6 +25,9 @@ struct Ledger {
     seeds: BTreeMap<u64, u32>,
     vals: BTreeMap<u64, u32>,
     bogus: Vec<String>,
+    /// zero-sized seeds cannot carry an id: creations and destructor runs are counted per case
+    zst_created: u32,
+    zst_dropped: u32,
 }
 thread_local! {
     static LEDGER: RefCell<Ledger> = RefCell::new(Ledger::default());
@@ -82,6 +85,33 @@ impl Default for PSeed {
 impl Drop for PSeed {
     fn drop(&mut self) {
         seed_dropped(self.magic, self.id);
+        panic!("seed-dtor");
+    }
+}
+/// Zero-sized seed WITH drop glue (`needs_drop` is true, `size_of` is 0).
+pub struct ZSeed;
+impl Default for ZSeed {
+    fn default() -> Self {
+        led(|l| l.zst_created += 1);
+        ZSeed
+    }
+}
+impl Drop for ZSeed {
+    fn drop(&mut self) {
+        led(|l| l.zst_dropped += 1);
+    }
+}
+/// Zero-sized seed whose destructor panics (after doing its bookkeeping).
+pub struct ZPSeed;
+impl Default for ZPSeed {
+    fn default() -> Self {
+        led(|l| l.zst_created += 1);
+        ZPSeed
+    }
+}
+impl Drop for ZPSeed {
+    fn drop(&mut self) {
+        led(|l| l.zst_dropped += 1);
         panic!("seed-dtor");
     }
 }
@@ -168,34 +198,53 @@ impl Val for PVal {
 trait Seed: Default + 'static {
     const TRACKED: bool;
     const DROP_PANICS: bool;
-    fn counter(&mut self) -> &mut u32;
+    /// read-and-increment the counter kept inside the seed (None: a zero-sized seed has no state)
+    fn bump(&mut self) -> Option<u32>;
 }
 impl Seed for u32 {
     const TRACKED: bool = false;
     const DROP_PANICS: bool = false;
-    fn counter(&mut self) -> &mut u32 {
-        self
+    fn bump(&mut self) -> Option<u32> {
+        *self += 1;
+        Some(*self - 1)
     }
 }
 impl Seed for TSeed {
     const TRACKED: bool = true;
     const DROP_PANICS: bool = false;
-    fn counter(&mut self) -> &mut u32 {
-        &mut self.n
+    fn bump(&mut self) -> Option<u32> {
+        self.n += 1;
+        Some(self.n - 1)
     }
 }
 impl Seed for PSeed {
     const TRACKED: bool = true;
     const DROP_PANICS: bool = true;
-    fn counter(&mut self) -> &mut u32 {
-        &mut self.n
+    fn bump(&mut self) -> Option<u32> {
+        self.n += 1;
+        Some(self.n - 1)
+    }
+}
+
+impl Seed for ZSeed {
+    const TRACKED: bool = true;
+    const DROP_PANICS: bool = false;
+    fn bump(&mut self) -> Option<u32> {
+        None
+    }
+}
+impl Seed for ZPSeed {
+    const TRACKED: bool = true;
+    const DROP_PANICS: bool = true;
+    fn bump(&mut self) -> Option<u32> {
+        None
     }
 }
 
 /// (name, seed type index, constructor: 0 new, 1 Default, 2 with_value, value type: 0 tracked
 /// Drop value, 1 plain value without destructor). Both `needs_drop::<U>()` answers are exercised
 /// with both value kinds. New combinations are appended so that recorded indices stay valid.
-const COMBOS: [(&str, u8, u8, u8); 16] = [
+const COMBOS: [(&str, u8, u8, u8); 26] = [
     ("u32-new", 0, 0, 0),
     ("tracked-new", 1, 0, 0),
     ("dtorpanic-new", 2, 0, 0),
@@ -212,6 +261,17 @@ const COMBOS: [(&str, u8, u8, u8); 16] = [
     ("dtorpanic-default/plain-value", 2, 1, 1),
     ("tracked-with_value/plain-value", 1, 2, 1),
     ("u32-with_value/plain-value", 0, 2, 1),
+    // zero-sized seeds with drop glue (seed type 3: counting destructor, 4: panicking destructor)
+    ("zst-new", 3, 0, 0),
+    ("zstdtorpanic-new", 4, 0, 0),
+    ("zst-default", 3, 1, 0),
+    ("zstdtorpanic-default", 4, 1, 0),
+    ("zst-with_value", 3, 2, 0),
+    ("zst-new/plain-value", 3, 0, 1),
+    ("zstdtorpanic-new/plain-value", 4, 0, 1),
+    ("zst-default/plain-value", 3, 1, 1),
+    ("zstdtorpanic-default/plain-value", 4, 1, 1),
+    ("zst-with_value/plain-value", 3, 2, 1),
 ];
 /// step alphabet: get_or_try_init{Ok,Err,panic}, get_or_init{Ok,panic}
 const SYM: [&str; 5] = ["tOk", "tErr", "tPanic", "iOk", "iPanic"];
@@ -233,10 +293,14 @@ fn run_case(combo: usize, steps: &[u8], ctx: &mut Ctx) {
     match (COMBOS[combo].1, COMBOS[combo].3) {
         (0, 0) => run_typed::<u32, TVal>(combo, steps, ctx),
         (1, 0) => run_typed::<TSeed, TVal>(combo, steps, ctx),
-        (_, 0) => run_typed::<PSeed, TVal>(combo, steps, ctx),
+        (2, 0) => run_typed::<PSeed, TVal>(combo, steps, ctx),
+        (3, 0) => run_typed::<ZSeed, TVal>(combo, steps, ctx),
+        (_, 0) => run_typed::<ZPSeed, TVal>(combo, steps, ctx),
         (0, _) => run_typed::<u32, PVal>(combo, steps, ctx),
         (1, _) => run_typed::<TSeed, PVal>(combo, steps, ctx),
-        (_, _) => run_typed::<PSeed, PVal>(combo, steps, ctx),
+        (2, _) => run_typed::<PSeed, PVal>(combo, steps, ctx),
+        (3, _) => run_typed::<ZSeed, PVal>(combo, steps, ctx),
+        (_, _) => run_typed::<ZPSeed, PVal>(combo, steps, ctx),
     }
 }
 
@@ -281,7 +345,7 @@ fn run_typed<U: Seed, V: Val>(combo: usize, steps: &[u8], ctx: &mut Ctx) {
             (None, Some(_)) => viol.push(("get_state", format!("{at}: get() is Some although no initialiser has succeeded"))),
             (Some(_), None) => viol.push(("get_state", format!("{at}: get() is None although an initialiser has succeeded"))),
         }
-        let (alive_seeds, alive_vals, bogus) = led(|l| (l.seeds.values().filter(|&&c| c == 0).count(), l.vals.values().filter(|&&c| c == 0).count(), l.bogus.clone()));
+        let (alive_seeds, alive_vals, bogus) = led(|l| (l.seeds.values().filter(|&&c| c == 0).count() + l.zst_created.saturating_sub(l.zst_dropped) as usize, l.vals.values().filter(|&&c| c == 0).count(), l.bogus.clone()));
         let want_vals = if V::TRACKED { model.init.is_some() as usize } else { 0 };
         let want_seeds = if U::TRACKED && ctor != 2 { 1 - model.init.is_some() as usize } else { 0 };
         if alive_seeds != want_seeds || alive_vals != want_vals {
@@ -299,8 +363,7 @@ fn run_typed<U: Seed, V: Val>(combo: usize, steps: &[u8], ctx: &mut Ctx) {
         let i32_ = i as u32;
         let body = |u: &mut U, outcome: u8| -> Result<V, u32> {
             ran.set(ran.get() + 1);
-            seen.set(Some(*u.counter()));
-            *u.counter() += 1;
+            seen.set(u.bump());
             match outcome {
                 0 => {
                     let v = V::make(i32_);
@@ -336,7 +399,7 @@ fn run_typed<U: Seed, V: Val>(combo: usize, steps: &[u8], ctx: &mut Ctx) {
             if ran.get() != 1 {
                 viol.push(("closure_not_run", format!("{at}: the cell is uninitialised but the closure ran {} times", ran.get())));
             } else {
-                if seen.get() != Some(model.executed) {
+                if seen.get().map_or(false, |c| c != model.executed) {
                     viol.push(("seed_not_intact", format!("{at}: the initialiser saw seed counter {:?}, the {} earlier initialiser(s) left it at {}", seen.get(), model.executed, model.executed)));
                 }
                 model.executed += 1;
@@ -389,6 +452,10 @@ fn run_typed<U: Seed, V: Val>(combo: usize, steps: &[u8], ctx: &mut Ctx) {
             viol.push(("drop_count", format!("at the end: {what} {id} was dropped {c} times, expected exactly once")));
             break;
         }
+    }
+    let (zc, zd) = led(|l| (l.zst_created, l.zst_dropped));
+    if zc != zd {
+        viol.push(("drop_count", format!("at the end: {zc} zero-sized seed(s) were created and their destructor ran {zd} time(s), expected exactly once each")));
     }
     if let Some(b) = bogus.first() {
         viol.push(("bogus_drop", format!("at the end: {b}")));
@@ -459,7 +526,7 @@ pub fn plan(args: &Args) -> Plan<'_> {
         }),
         run: Box::new(move |i, ctx| {
             if ctx.res.bound.is_empty() {
-                ctx.res.bound = format!("every sequence of <= {ml} calls over {{get_or_try_init: Ok, Err, panic; get_or_init: Ok, panic}} x {} cell constructions (seed u32 / tracked Drop / destructor panics x value tracked Drop / plain without destructor; new, Default, with_value); get(), Debug and the drop ledger checked after every call", COMBOS.len());
+                ctx.res.bound = format!("every sequence of <= {ml} calls over {{get_or_try_init: Ok, Err, panic; get_or_init: Ok, panic}} x {} cell constructions (seed u32 / tracked Drop / destructor panics / zero-sized with Drop / zero-sized with panicking destructor x value tracked Drop / plain without destructor; new, Default, with_value); get(), Debug and the drop ledger checked after every call", COMBOS.len());
                 ctx.res.rule = "cases = (construction, call sequence), enumerated by length then lexicographically; distinct = (seed type, constructor, index of the initialising call, per-call answer class)".into();
             }
             let (len, combo, first) = us[i];
